@@ -338,4 +338,4 @@ def run_pair(rep: C.Report, wd: str, tier: str, seed: int) -> None:
         edges = res[len(mc) + j].json_cases("EDGE")
         if not edges:
             raise C.MachineryError("no Pair edges emitted")
-        replay(rep, w, edges, seed + j, walks=100 if tier == "quick" else 1500, walk_len=60)
+        replay(rep, w, edges, seed + j, walks=2500 if tier == "quick" else 30000, walk_len=80)
